@@ -249,7 +249,11 @@ static std::string step(const std::string& line) {
       else S.emitter.reset(new x86::Assembler());
     }
     if (S.code->attach(S.emitter.get()) != Error::kOk) return "err attach";
-    if (!S.comp) S.emitter->set_logger(S.logger.get());
+    if (!S.comp) {
+      S.emitter->set_logger(S.logger.get());
+      // only instruction forms the validator knows are emitted (the encoder's behaviour on nonsense is C14's subject)
+      S.emitter->add_diagnostic_options(DiagnosticOptions::kValidateAssembler);
+    }
     return "ok";
   }
   if (w[0] == "dump") {
